@@ -23,6 +23,12 @@ from pharmpy.internals.set.subsets import non_empty_proper_subsets, non_empty_su
 
 N = int(os.environ.get('VH_N', '3'))
 BELL = [1, 1, 2, 5, 15, 52, 203]
+# optional case split: VH_ORDER="2,0,1" pins the relative order xs[2] < xs[0] < xs[1] (one process per ordering)
+ORDER = [int(t) for t in os.environ.get('VH_ORDER', '').split(',') if t != '']
+
+
+def _ordered(xs):
+    return all(xs[ORDER[i]] < xs[ORDER[i + 1]] for i in range(len(ORDER) - 1))
 
 
 def _distinct(xs):
@@ -54,7 +60,7 @@ def _positions(xs, sub):
 
 def parts_ok(xs: List[int]) -> bool:
     """
-    pre: len(xs) == N and _distinct(xs)
+    pre: len(xs) == N and _distinct(xs) and _ordered(xs)
     post: _ == True
     """
     ps = list(partitions(xs))
@@ -87,7 +93,7 @@ def parts_ok(xs: List[int]) -> bool:
 
 def parts_ok__twin(xs: List[int]) -> bool:
     """
-    pre: len(xs) == N and _distinct(xs)
+    pre: len(xs) == N and _distinct(xs) and _ordered(xs)
     post: _ == True
     """
     return not parts_ok(xs)
@@ -115,7 +121,7 @@ def _subsets_ok(xs, out, lo, hi):
 
 def subsets_ok(xs: List[int], lo: int, hi: int) -> bool:
     """
-    pre: len(xs) == N and _distinct(xs)
+    pre: len(xs) == N and _distinct(xs) and _ordered(xs)
     pre: 0 <= lo <= N + 1 and -N - 2 <= hi <= N + 1
     post: _ == True
     """
@@ -129,7 +135,7 @@ def subsets_ok(xs: List[int], lo: int, hi: int) -> bool:
 
 def subsets_ok__twin(xs: List[int], lo: int, hi: int) -> bool:
     """
-    pre: len(xs) == N and _distinct(xs)
+    pre: len(xs) == N and _distinct(xs) and _ordered(xs)
     pre: 0 <= lo <= N + 1 and -N - 2 <= hi <= N + 1
     post: _ == True
     """
@@ -138,7 +144,7 @@ def subsets_ok__twin(xs: List[int], lo: int, hi: int) -> bool:
 
 def nonempty_ok(xs: List[int]) -> bool:
     """
-    pre: len(xs) == N and _distinct(xs)
+    pre: len(xs) == N and _distinct(xs) and _ordered(xs)
     post: _ == True
     """
     a = list(non_empty_subsets(xs))
@@ -149,7 +155,7 @@ def nonempty_ok(xs: List[int]) -> bool:
 
 def nonempty_ok__twin(xs: List[int]) -> bool:
     """
-    pre: len(xs) == N and _distinct(xs)
+    pre: len(xs) == N and _distinct(xs) and _ordered(xs)
     post: _ == True
     """
     return not nonempty_ok(xs)
